@@ -678,6 +678,18 @@ PATCH_MODULES = [
 ]
 
 
+# (iii) applies only where `len` is width arithmetic.  In the tag handling, renderer and sentence modules `len` is
+# string/structure logic (slicing offsets, `len(str(num))`, child counts): making it symbolic there would make string
+# indices symbolic and derail the concrete string computation (seen with a refactor that moved a slicing loop there).
+GLOBAL_LEN_MODULES = {
+    "flowmark.linewrapping.text_wrapping",
+    "flowmark.linewrapping.line_wrappers",
+    "flowmark.linewrapping.text_filling",
+    "flowmark.linewrapping.markdown_filling",
+    "flowmark.reformat_api",
+}
+
+
 def patch_flowmark() -> list[str]:
     """
     Make word lengths symbolic in the *imported, live* flowmark modules of this process:
@@ -710,7 +722,7 @@ def patch_flowmark() -> list[str]:
             elif obj is _builtin_len:
                 setattr(mod, attr, sym_len)
                 sites.append(f"{name}.{attr}")
-        if not hasattr(mod, "len") or getattr(mod, "len") is _builtin_len:
+        if name in GLOBAL_LEN_MODULES and (not hasattr(mod, "len") or getattr(mod, "len") is _builtin_len):
             setattr(mod, "len", sym_len)
             sites.append(f"{name}.len")
     _PATCHED = True
